@@ -267,6 +267,7 @@ func runC01(c *Check) {
 	}
 	c.ruleResetEmptiesRequestState("R9")
 	c.ruleConstIndexGuarded("R10", "spynode", "handlers", "state")
+	c.ruleForkAlwaysFollowed("R22")
 	c.ruleEmptyMeansAllEmpty("R11")
 	c.ruleBenignSentinelsHandled("R12")
 	c.ruleTimeoutsFire("R14")
@@ -628,6 +629,8 @@ func runC08(c *Check) {
 	c.ruleSpliceRemovesOne("R9", 1, "spynode")
 	c.ruleRelevantOnlyByMatch("R10")
 	c.ruleEveryOutputParsed("R11")
+	c.ruleRelevanceScansEverything("R13", "R14")
+	c.ruleSubscriptionHashProvenance("R15")
 
 	// ---- R4 who may write
 	nW := 0
